@@ -95,6 +95,11 @@ theorem shared_calls_enumerated :
        ("loopState.resolveOptionalExpression", "expr.Expr.Evaluate(..l.callableFunctions..)"),
        ("loopState.resolveOptionalExpression", "expr.Expr.Evaluate(..l.workflowContext..)")] := by decide
 
+/-- the expression objects of internal/infer (one-of, optional), which live in the prepared workflow's DAG items and are
+    shared by all runs, are never written through their own methods (`String`, `Type`, `Dependencies`, ...): no lazily
+    cached field, no counter.  The run loop calls these methods (also as arguments of log calls) under the PER-RUN lock only. -/
+theorem shared_expression_objects_not_written_by_their_methods : Arca.Gen.sharedExprReceiverWrites = [] := by decide
+
 /-- the analysis looked at the run loop: the functions that mutate the loop state are in the analysed set -/
 theorem frame_covers_run_loop :
     (["executableWorkflow.Execute", "executableWorkflow.handleOutput", "loopState.onStageComplete", "loopState.notifySteps",
